@@ -209,6 +209,12 @@ def gen_spec(rng):
             tgt = rng.choice(labels)
             alt = rng.choice(["----- ", " -----", "------", "----"])
             c["values"] = [alt if v == tgt else v for v in c["values"]]
+    elif body.get("page_by") and rng.random() < 0.12:
+        # a page_by column of Float dtype with NaN (which is not equal to itself), the infinities and -0.0
+        pick = rng.choice(body["page_by"])
+        c = next(c for c in cols if c["name"] == pick)
+        if c["dtype"] == "str" and E.DIVIDER not in c["values"] and "" not in c["values"]:
+            G.float_keys(rng, c)
     if wide:
         # many columns of very different widths holding the SAME or nearly the same text in one row (the text,
         # and the text behind one more digit): what a cell needs depends on its column, not on its text alone
